@@ -75,7 +75,9 @@ func runC12(p *Prog, r *Report) {
 	r.Floor("C12.18/nil-safe", "e12b.uses.C12.18/nil-safe", 20)
 	dialStoresNoOptionState(p, r, "C12.17/dial-reads-options-at-use")
 	r.Floor("C12.17/dial-reads-options-at-use", "transport_dials.C12.17/dial-reads-options-at-use", 4)
-	closerLeaks(p, r, "C12.16/closer-leak", func(rel string) bool { return strings.HasPrefix(rel, "transport") || rel == "internal/core" || rel == "macat" })
+	closerLeaks(p, r, "C12.16/closer-leak", func(rel string) bool {
+		return strings.HasPrefix(rel, "transport") || rel == "internal/core" || rel == "macat"
+	})
 	r.Floor("C12.16/closer-leak", "e11.acquisitions.C12.16/closer-leak", 8)
 	{
 		q := NewQ(p, r)
